@@ -9,43 +9,32 @@ Definition var (line n : N) (pub : bool) : stmt := SDecl line (mkDecl n KVar pub
 Definition imp_named (line tgt : N) (ns : list N) : stmt := SImport (mkImport line tgt (INamed ns)).
 Definition imp_whole (line tgt : N) : stmt := SImport (mkImport line tgt IWhole).
 
-(* ---- defect 1: an import inside a loop body: the initialiser runs on every iteration ---- *)
+(* ---- import statements nested in a loop, a branch, a function body: their modules are initialised once, before
+   the enclosing top-level statement (the former defects of the pinned tree) ---- *)
 Definition fs_loop : fsys :=
   mkFs [(1, [SMark 1; SBlock (CRepeat 3) [imp_named 3 2 [5]; SUse 4 5 KVar]; SMark 2]);
         (2, [var 2 5 true])] [].
 
-Lemma init_once_refuted_witness :
-  outcome fs_loop 1 = Some [EMark 1 1; EInit 2; EInitVar 2 5; EVal 2 5 true; EInit 2; EInitVar 2 5; EVal 2 5 true;
-                            EInit 2; EInitVar 2 5; EVal 2 5 true; EMark 1 2].
+Example nested_loop_once :
+  outcome fs_loop 1 = Some [EMark 1 1; EInit 2; EInitVar 2 5; EVal 2 5 true; EVal 2 5 true; EVal 2 5 true; EMark 1 2].
 Proof. vm_compute. reflexivity. Qed.
 
-(* ---- defect 2: an import inside a branch that is not taken, then a top-level import of the same module:
-   the module is never initialised and its global is read with its default value ---- *)
 Definition fs_never : fsys :=
   mkFs [(1, [SBlock (CIf false) [imp_named 2 2 [5]]; imp_named 3 2 [5]; SMark 1; SUse 5 5 KVar]);
         (2, [var 2 5 true])] [].
 
-Lemma init_never_refuted_witness :
-  outcome fs_never 1 = Some [EMark 1 1; EVal 2 5 false].
+Example nested_untaken_branch_still_initialised :
+  outcome fs_never 1 = Some [EInit 2; EInitVar 2 5; EMark 1 1; EVal 2 5 true].
 Proof. vm_compute. reflexivity. Qed.
 
-(* ---- defect 3: an import inside a function body of an imported module: initialised again on every call ---- *)
 Definition fs_fnbody : fsys :=
   mkFs [(1, [imp_whole 2 3; SUse 3 6 KFunc; SUse 4 6 KFunc]);
         (2, [var 2 5 true]);
         (3, [SDecl 2 (mkDecl 6 KFunc true) [imp_named 3 2 [5]; SUse 4 5 KVar]])] [].
 
-Lemma init_fnbody_refuted_witness :
-  outcome fs_fnbody 1 = Some [EInit 2; EInitVar 2 5; EInit 3; EFn 3 6; EInit 2; EInitVar 2 5; EVal 2 5 true;
-                              EFn 3 6; EInit 2; EInitVar 2 5; EVal 2 5 true].
+Example nested_function_body_once :
+  outcome fs_fnbody 1 = Some [EInit 2; EInitVar 2 5; EInit 3; EFn 3 6; EVal 2 5 true; EFn 3 6; EVal 2 5 true].
 Proof. vm_compute. reflexivity. Qed.
-
-(* the three witnesses nest an import: they violate the hypothesis of the partial theorems *)
-Lemma fs_loop_not_wf : ~ wf_fs fs_loop.
-Proof.
-  intros H. specialize (H 1). unfold src_of in H. cbn in H.
-  inversion H as [|? ? _ H1]; subst. inversion H1 as [|? ? H2 _]; subst. cbn in H2. discriminate.
-Qed.
 
 (* ---- quirk: a missing file leaves the nil placeholder behind; a second import of it is reported with the
    "modules import each other" diagnostic although nothing is cyclic ---- *)
@@ -60,15 +49,6 @@ Definition fs_diamond : fsys :=
         (2, [imp_named 2 4 [8]; imp_named 3 3 [6]; var 4 5 true; SMark 500]);
         (3, [imp_named 2 4 [8]; var 3 6 true; var 4 7 false]);
         (4, [var 2 8 true])] [].
-
-Ltac solve_wf :=
-  let q := fresh "q" in
-  intros q; unfold src_of; cbn [lookup fs_files];
-  repeat match goal with |- context [N.eqb q ?k] => destruct (N.eqb q k) end;
-  repeat constructor.
-
-Example diamond_wf : wf_fs fs_diamond.
-Proof. unfold fs_diamond. solve_wf. Qed.
 
 Example diamond_outcome :
   outcome fs_diamond 1 =
